@@ -284,11 +284,12 @@ CORE = {
     "StrPrefixOf": (S.STR_PREFIXOF, None), "StrSuffixOf": (S.STR_SUFFIXOF, None), "StrToInt": (S.STR_TO_INT, None),
     "IntToStr": (S.INT_TO_STR, None), "StrCharAt": (S.STR_CHARAT, None), "BVToNatural": (S.BV_TONATURAL, None),
     "Select": (S.ARRAY_SELECT, None), "Store": (S.ARRAY_STORE, None),
+    "BVConcat": (S.BV_CONCAT, "sum"),      # the binary application; longer argument lists are pinned by their meaning (C06)
 }
 
 
 # derived constructors whose meaning is proved per width of a stated family (Pw)
-WIDTH_FAMILY = {"BVSMod": {"quick": (1, 2, 3, 4), "thorough": (1, 2, 3, 4, 5, 6, 8)}}
+WIDTH_FAMILY = {"BVSMod": {"quick": (1, 2, 3, 4), "thorough": (1, 2, 3, 4, 5, 6)}}
 
 
 class ConstructorVariant(Variant):
@@ -300,6 +301,8 @@ class ConstructorVariant(Variant):
         props = ["C03", "C06"]
         if sp.name in CORE:
             props.append("C04")
+        if sp.name.split("[")[0] in ("Min", "Max", "MinBV", "MaxBV"):
+            props.append("C18")          # the min-max / max-min goals of the optimiser are these constructors (contract used by the C18 proof)
         self.prop_ids = tuple(props)
         self.max_arity = 4
         if k is not None:
@@ -346,15 +349,32 @@ class ConstructorVariant(Variant):
         goals = [("C03:ill-formed-application-rejected", ok),
                  ("C03:result-type", z3.Implies(ok, ty(r) == sp.rtype(self.xs, self.ints))),
                  ("C06:denotes-named-function", z3.Implies(ok, v(r) == sp.rval(self.xs, self.ints)))]
-        if sp.name in CORE:
+        if "C18" in self.prop_ids:
+            goals.append(("C18:objective-denotes-the-minimum-or-maximum", z3.Implies(ok, z3.And(ty(r) == sp.rtype(self.xs, self.ints),
+                                                                                            v(r) == sp.rval(self.xs, self.ints)))))
+        if sp.name in CORE and (sp.params != "*" or self.k == 2):
             Kop, pk = CORE[sp.name]
             pl = []
+            if pk == "sum":
+                pl = [z3.Sum([w_of(x) for x in self.xs])]
             if pk == "w":
                 pl = [w_of(self.xs[0])]
             elif pk == "1":
                 pl = [K(1)]
             m = self.world.mk_term(Kop, self.xs, pl)
             goals.append(("C04:node-has-given-structure", z3.Implies(ok, r == m)))
+        elif sp.name == "BVConcat" and self.k is not None and self.k > 2:
+            # a longer argument list: some nesting of binary concatenations whose leaves are the arguments in the order given
+            def trees(xs):
+                if len(xs) == 1:
+                    return [xs[0]]
+                out = []
+                for i in range(1, len(xs)):
+                    for a in trees(xs[:i]):
+                        for b in trees(xs[i:]):
+                            out.append(self.world.mk_term(S.BV_CONCAT, [a, b], [w_of(a) + w_of(b)]))
+                return out
+            goals.append(("C04:children-in-the-order-given", z3.Implies(ok, z3.Or([r == t for t in trees(list(self.xs))]))))
         return goals
 
     def known_class(self, clause):
